@@ -9,6 +9,7 @@ import (
 	"database/sql/driver"
 	"fmt"
 	"runtime"
+	"runtime/debug"
 	"sort"
 	"strings"
 	"sync"
@@ -53,13 +54,14 @@ type World struct {
 	wake    chan struct{}
 
 	// exploration
-	Plan     map[int]Deviation
-	Policy   int // 0 FIFO, 1 LIFO
-	Trace    []Point
-	MaxSteps int
-	Steps    int
-	Aborted  string // non-empty: execution aborted (livelock budget)
-	Panics   []string
+	Plan        map[int]Deviation
+	Policy      int // 0 FIFO, 1 LIFO
+	Trace       []Point
+	MaxSteps    int
+	Steps       int
+	Aborted     string // non-empty: execution aborted (livelock budget)
+	Panics      []string
+	PanicStacks []string
 
 	// observation
 	OnApply  []func(*Applied)
@@ -73,6 +75,7 @@ type World struct {
 	OnIdle              func()
 	IdleEvery           time.Duration
 	lastIdle            time.Duration
+	lastChanged         bool
 	ZKBlockDisconnected bool // requests of a disconnected client park instead of failing with ErrNoServer
 	ZKAutoExpire        bool // cut sessions expire by themselves after the session timeout (daemon mode)
 }
@@ -203,25 +206,25 @@ type Call struct {
 	Ctx    context.Context
 
 	seq   int
-	gid   uint64 // id of the calling goroutine: creation order breaks ties between identical calls
+	gid   uint64 // hash of the call stack: breaks ties between calls with the same identity
 	key   string
 	reply chan Reply
 }
 
-// goid returns the id of the calling goroutine. Ids grow in creation order; with one P they are
-// allocated sequentially, so the relative order of two goroutines of one execution is fixed by
-// the program, not by the scheduler.
-func goid() uint64 {
-	var buf [64]byte
-	n := runtime.Stack(buf[:], false)
-	var id uint64
-	for _, c := range buf[10:n] {
-		if c < '0' || c > '9' {
-			break
-		}
-		id = id*10 + uint64(c-'0')
+// callSite hashes the call stack of the calling goroutine. Two parked calls with the same
+// identity (process, target, operation) but issued from different code paths (say the manager
+// loop and the optimisation syncer goroutine) get a canonical relative order from it; calls
+// that agree in call stack as well are symmetric and their order is immaterial. Program counters
+// are stable for one binary, so the order is the same in every run of that binary. (A goroutine
+// id would do too but runtime.Stack costs tens of microseconds per call.)
+func callSite() uint64 {
+	var pcs [14]uintptr
+	n := runtime.Callers(3, pcs[:])
+	h := uint64(1469598103934665603)
+	for _, pc := range pcs[:n] {
+		h = (h ^ uint64(pc)) * 1099511628211
 	}
-	return id
+	return h
 }
 
 type Reply struct {
@@ -238,11 +241,12 @@ type RowSet struct {
 
 // Applied describes a call as it was answered, for monitors.
 type Applied struct {
-	Point  Point
-	Call   *Call
-	Effect bool // the call's effect was applied to the world
-	Err    error
-	W      *World
+	Point   Point
+	Call    *Call
+	Effect  bool // the call's effect was applied to the world
+	Changed bool // SQL: the server's state differs from before the statement
+	Err     error
+	W       *World
 }
 
 var t0 time.Time
@@ -257,7 +261,7 @@ func (w *World) Now() time.Duration {
 // Gate parks the calling goroutine until the scheduler answers the call.
 func (w *World) Gate(c *Call) Reply {
 	c.reply = make(chan Reply, 1)
-	c.gid = goid()
+	c.gid = callSite()
 	c.key = c.Proc + "|" + c.Target + "|" + c.Kind + "|" + c.Op
 	w.mu.Lock()
 	c.seq = w.seq
@@ -309,7 +313,7 @@ func (w *World) pendingSnapshot() []*Call {
 	// Canonical order of the parked calls. It must not depend on the order in which goroutines
 	// woken at the same virtual instant happened to run (the runtime's order among timers with
 	// equal deadlines depends on process history): the SET of parked calls after synctest.Wait is
-	// independent of it, so order by call identity, then by goroutine creation order.
+	// independent of it, so order by call identity, then by call-stack hash.
 	r := append([]*Call(nil), w.pending...)
 	sort.Slice(r, func(i, j int) bool {
 		if r[i].key != r[j].key {
@@ -371,6 +375,7 @@ func (w *World) Step(proc string, fn func()) {
 			if r := recover(); r != nil {
 				w.mu.Lock()
 				w.Panics = append(w.Panics, fmt.Sprintf("%s: %v", proc, r))
+				w.PanicStacks = append(w.PanicStacks, string(debug.Stack()))
 				w.mu.Unlock()
 			}
 		}()
@@ -460,7 +465,8 @@ func (w *World) note(pt *Point, c *Call, effect bool, err error) {
 		w.StmtLog = append(w.StmtLog, fmt.Sprintf("[%8.3f] #%d %s -> %s: %s%s%s", w.Now().Seconds(), pt.Idx, c.Proc, c.Target, s, eff, e))
 	}
 	if len(w.OnApply) > 0 {
-		a := &Applied{Point: *pt, Call: c, Effect: effect, Err: err, W: w}
+		a := &Applied{Point: *pt, Call: c, Effect: effect, Err: err, W: w, Changed: w.lastChanged && c.Kind == "sql"}
+		w.lastChanged = false
 		for _, f := range w.OnApply {
 			f(a)
 		}
@@ -596,7 +602,12 @@ func (w *World) executeSQL(c *Call, pt *Point, dev Deviation) {
 		w.park(c)
 		return
 	}
+	var before string
+	if c.Mut && len(w.OnApply) > 0 {
+		before = s.Dump(w)
+	}
 	rows, err, block := s.Exec(w, c)
+	w.lastChanged = c.Mut && len(w.OnApply) > 0 && before != s.Dump(w)
 	if block {
 		w.note(pt, c, false, fmt.Errorf("blocked in server"))
 		w.mu.Lock()
